@@ -19,7 +19,7 @@ static void install(C& c, S& s)
     for (size_t i = 0; i < HCAP; ++i)
     {
         auto& e              = c.m_elements.m_data[i];
-        e.m_value            = s.u64();
+        e.m_value            = VAL_T(s.u64());
         e.CP.i               = s.u64();
         e.CP.l               = s.b() ? &c.CL : nullptr;
         e.m_keyed_position.i = s.u64();
@@ -78,7 +78,7 @@ static void alpha(C& c, Abs& a)
             size_t slot = c.CL.m_pool[cur].value;
             auto&  e    = c.m_elements.m_data[slot];
             a.k[p]      = c.m_keyed_elements.m_pool[e.m_keyed_position.i].kv.first;
-            a.v[p]      = e.m_value;
+            a.v[p]      = val_u(e.m_value);
             cur         = c.CL.m_pool[cur].next;
         }
     }
